@@ -350,6 +350,17 @@ def _execute(plan, env):
         res.digest = tr.digest()
         res.sample = {"tree_rejected": str(e)[:200]}
         return res
+    # every declared struct / packet / case has its generated class (there is no deserializer to obey the spec otherwise)
+    for name in sorted(te.spec.classes):
+        try:
+            te.bridge.cls(name)
+        except (ImportError, AttributeError) as e:
+            res.violation = {"kind": "deserializer-missing", "signature": f"C03|deserializer-missing|{te.spec.classes[name].kind}",
+                             "detail": f"the accepted specification declares {name} but the generated package has no such class "
+                                       f"({type(e).__name__}: {e})", "step": 0}
+            res.evaluations = 1
+            res.digest = tr.digest()
+            return res
     run = Runner(te, res, tr, env.known, PLAN_OP_BUDGET.get(plan.get("tier"), 10**9))
     if plan.get("explore") and "cases" not in plan and plan.get("seed_index") == 0:
         # directed cases (known findings are probed by a fixed input, so that they are identified by it)
